@@ -25,7 +25,38 @@ def _smt2(assumptions, goal):
     return s.to_smt2()
 
 
+ABS_MS = int(os.environ.get("PYVC_ABS_MS", "8000"))
+
+
 def solve(assumptions, goal, want_model=True, z3_ms=None, use_cvc5=True):
+    """Abstraction first (sound for `proved`), then the precise back ends."""
+    from .abstraction import abstract_query
+
+    t0 = time.time()
+    abstract_sat = False
+    q = abstract_query(assumptions, goal) if os.environ.get("PYVC_NO_ABS") is None else None
+    if q is not None:
+        na, ng, exact = q
+        s = z3.Solver()
+        s.set("timeout", ABS_MS)
+        s.set("random_seed", SEED)
+        for a in na:
+            s.add(a)
+        s.add(z3.Not(ng))
+        r = s.check()
+        if r == z3.unsat:
+            return {"status": "proved", "backend": "z3-" + z3.get_version_string() + "/strU", "seconds": time.time() - t0}
+        if r == z3.sat and exact:
+            abstract_sat = True
+    res = solve_precise(assumptions, goal, want_model, z3_ms if not abstract_sat else min(z3_ms or Z3_TIMEOUT_MS, 5000), use_cvc5 and not abstract_sat)
+    res["seconds"] = time.time() - t0
+    if abstract_sat and res["status"] == "unknown":
+        # equisatisfiable abstraction is sat: the obligation is refuted, but no string model
+        return {"status": "refuted", "backend": "z3-" + z3.get_version_string() + "/strU-exact", "seconds": res["seconds"], "model": None}
+    return res
+
+
+def solve_precise(assumptions, goal, want_model=True, z3_ms=None, use_cvc5=True):
     t0 = time.time()
     s = z3.Solver()
     s.set("timeout", z3_ms or Z3_TIMEOUT_MS)
